@@ -28,7 +28,7 @@ DRIVER = "drv_plannerproto"
 LEAN_TARGETS = ["OmplModel.Props.C03", DRIVER]
 F = core.f2bits
 
-GEOMETRIC = ["RRT", "RRTConnect", "RRTstar", "InformedRRTstar", "SORRTstar", "RRTsharp", "RRTXstatic", "LazyRRT", "TRRT",
+GEOMETRIC = ["RRT", "RRTi", "RRTConnect", "RRTConnecti", "QRRT", "QRRTStar", "QMP", "QMPStar", "RRTstar", "InformedRRTstar", "SORRTstar", "RRTsharp", "RRTXstatic", "LazyRRT", "TRRT",
              "BiTRRT", "LBTRRT", "LazyLBTRRT", "RLRT", "BiRLRT", "EST", "BiEST", "ProjEST", "KPIECE1", "BKPIECE1",
              "LBKPIECE1", "PDST", "SBL", "STRIDE", "PRM", "PRMstar", "LazyPRM", "LazyPRMstar", "SPARS", "SPARStwo", "FMT",
              "BFMT", "BITstar", "ABITstar", "BITstarA", "ABITstarA", "AITstar", "EITstar", "EIRMstar", "SST", "AnytimePathShortening",
@@ -146,6 +146,19 @@ def histories(tier):
         # no obstacle at all and an EXACT goal state (threshold = machine epsilon, what setStartAndGoalStates defaults to):
         # the straight segment is the optimum, cbest == cmin, the informed set has measure zero
         "free-exact": lambda k, K: [qx("setpd", QA, 2.220446049250313e-16), "solve %d" % k, "solve %d" % K, "solve %d" % k],
+        # the termination condition classes themselves: a real IterationTerminationCondition(k) (solvei) and
+        # PlannerTerminationCondition::terminate() called from outside the condition's own function (solvet)
+        "ptc-kinds": lambda k, K: [q("setpd", QA), "solvei %d" % k, "solvet %d" % k, "getpd", "solvei %d" % K, "clear", "solvet %d" % k,
+                                   "solvei %d" % k],
+        # boundary queries: the start state already satisfies the goal (a one-state path); the same start state given twice;
+        # start and goal ON the bounds of the space (corners)
+        "start-is-goal": lambda k, K: [q("setpd", (QA[0], QA[0])), "solve %d" % k, "getpd", "solve %d" % k, "clear", "solve %d" % k],
+        "dup-start": lambda k, K: [q("setpd", QA), "addstart " + pt(QA[0]), "solve %d" % k, "addstart " + pt(QA[0]), "solve %d" % k,
+                                   "solve %d" % K],
+        "on-bound": lambda k, K: [q("setpd", ((0.0, 0.0), (1.0, 1.0))), "solve %d" % k, "solve %d" % K, "clear", "solve %d" % k],
+        # a planner parameter changed between calls (after setup() / the first solve)
+        "setparam": lambda k, K: [q("setpd", QA), "solve %d" % k, "setparam range 0.05", "solve %d" % k, "setparam goal_bias 0.5",
+                                  "solve %d" % K, "clear", "setparam range 0.3", "solve %d" % k],
         "swap": lambda k, K: [q("setpd", QA), "solve %d" % K, "clear", q("setsg", QSWAP), "solve %d" % k, "solve %d" % K],
         "invalid-start": lambda k, K: [q("setpd", QINV), "solve %d" % k, "addstart " + pt(QA[0]), "solve %d" % k,
                                        "solve %d" % K],
@@ -167,6 +180,12 @@ def histories(tier):
 
 
 # ---------------------------------------------------------------------------------- parsing + oracle
+def opname(ln):
+    """op of a script line; the three solve flavours (evaluation counter, IterationTerminationCondition, terminate()) are one op"""
+    op = ln.split()[0]
+    return "solve" if op in ("solvei", "solvet") else op
+
+
 def kv(line):
     d = {}
     for tok in line.split(" | ")[0].split():
@@ -183,7 +202,7 @@ def parse_new(s):
         return out
     for rec in s.split(";"):
         f = rec.split(":")
-        out.append({"idx": int(f[0]), "approx": f[1] == "1", "n": int(f[2]), "s0": int(f[3]), "goal": f[4] == "1",
+        out.append({"idx": int(f[0]), "approx": f[1] == "1", "n": int(f[2]), "s0": int(f[3]), "goal": f[4] == "1", "old_goal": f[4] == "2",
                     "valid": f[5] == "1", "motions": f[6] == "1", "old": int(f[7]), "ctl": f[8]})
     return out
 
@@ -198,7 +217,7 @@ def contexts(ops):
     dirty = False
     has_data = False
     for ln in ops:
-        op = ln.split()[0]
+        op = opname(ln)
         if op == "solve":
             c = "+".join(pending) if pending else state
             ctx.append(c + ("/dirty" if dirty else ""))
@@ -222,6 +241,9 @@ def history_flags(ops, ctx):
     dirty = any(c.endswith("/dirty") for c in ctx)
     return {"getpd": any(o.startswith("getpd") for o in ops), "dirty": dirty,
             "multigoal": any(o.startswith("setpdg") for o in ops),
+            "second_pdef": sum(1 for o in ops if o.split()[0] in ("setpd", "setpdg")) >= 2,
+            "start_is_goal": any(o.split()[0] in ("setpd", "setsg", "mutpd") and len(o.split()) >= 5 and
+                                 o.split()[1:1 + (len(o.split()) - 2) // 2] == o.split()[1 + (len(o.split()) - 2) // 2:-1] for o in ops),
             "adds_start_later": dirty or any(o.startswith("addstart") for o in ops)}
 
 
@@ -237,10 +259,10 @@ def oracle(planner, ops, out, rc, err):
         return [(0, "no-return", "the process did not finish within the process timeout")]
     for i, ln in enumerate(ops):
         if i >= len(out):
-            fails.append((i, "crash", "no output for this op (rc=%s): %s" % (rc, sanitizer_summary(err))))
+            fails.append((i, "crash", "no output for this op (rc=%s): %s" % (rc, sanitizer_summary(err)), {"where": crash_site(err)}))
             return fails
         o = out[i]
-        op = ln.split()[0]
+        op = opname(ln)
         if o.startswith("solve NORETURN"):
             # the harness's watchdog: the termination condition HAD been evaluated true and solve() did not return within
             # the hard wall limit (header limit=<s>, default 30 s); the process was ended there
@@ -280,14 +302,16 @@ def oracle(planner, ops, out, rc, err):
             continue
         added = int(d["added"])
         if st.startswith("EXC:"):
-            fails.append((i, "exception", "solve threw %s" % st[4:160]))
+            fails.append((i, "exception", "solve threw %s" % st[4:160], {"where": st[4:90]}))
             continue
         if st == "EXACT_SOLUTION" and d["exact"] != "1":
-            fails.append((i, "status-exact", "EXACT_SOLUTION but hasExactSolution() is false (nsol=%s)" % d["nsol"]))
+            fails.append((i, "status-exact", "EXACT_SOLUTION but hasExactSolution() is false (nsol=%s)" % d["nsol"],
+                          {"evals0": d.get("evals") == "0", "nsol0": d["nsol"] == "0", "added0": added == 0}))
         if st == "APPROXIMATE_SOLUTION" and d["has"] != "1":
             fails.append((i, "status-approx", "APPROXIMATE_SOLUTION but the problem definition holds no solution"))
         if st == "INVALID_START" and valid_start:
-            fails.append((i, "invalid-start", "INVALID_START although the problem definition holds a valid start state"))
+            fails.append((i, "invalid-start", "INVALID_START although the problem definition holds a valid start state",
+                          {"evals0": d.get("evals") == "0", "after_clearQuery": any(opname(x) == "clearQuery" for x in ops[:i])}))
         if st == "INFEASIBLE" and d["exact"] == "1":
             fails.append((i, "infeasible-with-solution", "INFEASIBLE (\"the planner decided that the problem is infeasible\") while the "
                                                          "problem definition holds an exact solution"))
@@ -305,10 +329,16 @@ def oracle(planner, ops, out, rc, err):
                 continue
             if multi:
                 continue
-            if s["s0"] < 0:
+            if s["s0"] == -2:
+                fails.append((i, "start-old-query", "solution #%d (%d states) begins at a start state of an EARLIER query" % (s["idx"], s["n"])))
+            elif s["s0"] < 0:
                 fails.append((i, "start", "solution #%d (%d states) does not begin at a current start state" % (s["idx"], s["n"])))
             if not s["approx"] and not s["goal"]:
-                fails.append((i, "exact-not-at-goal", "solution #%d is stored as exact but its last state does not satisfy the goal" % s["idx"]))
+                if s["old_goal"]:
+                    fails.append((i, "exact-at-old-goal", "solution #%d is stored as exact but ends at a goal of an EARLIER query, not "
+                                                          "the current one" % s["idx"]))
+                else:
+                    fails.append((i, "exact-not-at-goal", "solution #%d is stored as exact but its last state does not satisfy the goal" % s["idx"]))
             if not s["valid"]:
                 fails.append((i, "invalid-state", "solution #%d contains an invalid state" % s["idx"]))
             # roadmap planners (PRM, PRMstar, LazyPRM, LazyPRMstar, SPARS, SPARStwo) keep the roadmap across queries by
@@ -322,11 +352,15 @@ def oracle(planner, ops, out, rc, err):
             if s["ctl"] == "0":
                 fails.append((i, "control-shape", "control path #%d: controls/durations do not match the states" % s["idx"]))
     if len(out) <= n_ops:
-        fails.append((n_ops, "crash", "no end line (rc=%s): %s" % (rc, sanitizer_summary(err))))
+        fails.append((n_ops, "crash", "no end line (rc=%s): %s" % (rc, sanitizer_summary(err)), {"where": crash_site(err)}))
         return fails
     e = kv(out[n_ops])
     if e.get("live") != "0":
-        fails.append((n_ops, "leak", "live=%s states after planner, problem definition and paths were destroyed" % e.get("live")))
+        pinned = sum(int(kv(out[j]).get("v", "0")) for j, ln in enumerate(ops) if opname(ln) == "getpd" and out[j].startswith("getpd"))
+        nsolve = sum(1 for ln in ops if opname(ln) == "solve")
+        live = int(e.get("live", "0")) if e.get("live", "0").lstrip("-").isdigit() else -1
+        fails.append((n_ops, "leak", "live=%s states after planner, problem definition and paths were destroyed" % e.get("live"),
+                      {"leak_within_pinned": 0 < live <= pinned, "live_le_solves": 0 < live <= nsolve}))
     if e.get("clive", "0") != "0":
         fails.append((n_ops, "leak-control", "clive=%s controls after planner, problem definition and paths were destroyed" % e.get("clive")))
     if e.get("badfree") != "0":
@@ -334,6 +368,12 @@ def oracle(planner, ops, out, rc, err):
     if rc != 0 and not any(f[1] == "leak" for f in fails):
         fails.append((n_ops, "sanitizer", "rc=%s: %s" % (rc, sanitizer_summary(err))))
     return fails
+
+
+def crash_site(err):
+    """innermost ompl:: frame of a sanitizer report"""
+    where = re.findall(r"#\d+ 0x[0-9a-f]+ in (ompl::[^\s(]+)", err or "")
+    return where[0] if where else "-"
 
 
 def sanitizer_summary(err):
@@ -415,14 +455,17 @@ def report_fail(ck, rn, res):
     smallest interruption index); known findings are matched on those keys."""
     seen = REPORTED
     new_violation = False
-    for (i, clause, text) in res["fails"]:
+    for f in res["fails"]:
+        i, clause, text = f[:3]
+        extra = f[3] if len(f) > 3 else {}
         c = res["ctx"][i] if i < len(res["ctx"]) else "end"
         if c == "-":
             c = res["ops"][i].split()[0]
         rec = {"engine": "proto", "planner": res["planner"], "clause": clause, "ctx": c, "history": res["history"]}
         rec.update(history_flags(res["ops"], res["ctx"]))
         rec["env"] = res.get("env", "open")
-        key = (res["planner"], clause, c, rec["getpd"], rec["dirty"], rec["adds_start_later"], rec["multigoal"])
+        rec.update(extra)
+        key = (res["planner"], clause, c, rec["getpd"], rec["dirty"], rec["adds_start_later"], rec["multigoal"], rec["start_is_goal"], rec["second_pdef"], tuple(sorted(extra.items())))
         if key in seen:
             continue
         seen.add(key)
@@ -956,7 +999,7 @@ def run(ck):
     if ck.lean_ok:
         r = ck.rng.fork("lockstep")
         ljobs = []
-        lhs = {n: f for n, f in hs.items() if n not in ("mutpd", "mutpd-clear", "clearsol-sealed", "multigoal", "multigoal-blocks", "free-exact")}
+        lhs = {n: f for n, f in hs.items() if n not in ("mutpd", "mutpd-clear", "clearsol-sealed", "multigoal", "multigoal-blocks", "free-exact", "ptc-kinds", "setparam")}
         for planner in LOCKSTEP_CORE:
             lseeds = [seeds[planner], r.below(1000)] if quick else [seeds[planner]] + [r.below(1000) for _ in range(2)]
             for s in lseeds:
@@ -1008,8 +1051,8 @@ def replay(ck, data):
     if out and len(out) > len(ops):
         print("%-28s impl: %s" % ("<end>", out[len(ops)][:200]))
     fails = oracle(planner, ops, out, rc, err)
-    for (i, clause, text) in fails:
-        print("PROPERTY FAILS at op %d [%s]: %s" % (i, clause, text))
+    for f in fails:
+        print("PROPERTY FAILS at op %d [%s]: %s" % (f[0], f[1], f[2]))
     if rc not in (0, None):
         print("harness rc=%s %s" % (rc, sanitizer_summary(err)))
     if fails:
